@@ -480,15 +480,17 @@ def configs(ctx):
         add("env", "KDisks", "K1", "SlotDist", "ArgsEnvQ", "OpsEnv", 3)
         add("sim", "KAll", "K3", "SlotColl", "ArgsAll", "OpsAll", 6, sim=1500)
     else:
-        add("values", "KAll", "K2", "SlotDist", "ArgsValues", "OpsMap", 3)
-        add("few", "KMems", "K3", "SlotDist", "ArgsFew", "OpsMap", 4)
-        add("few", "KDisks", "K2", "SlotDist", "ArgsFew", "OpsMap", 4)
-        add("uses", "KAll", "K2", "SlotColl", "ArgsUses", "OpsUse", 4)
-        add("hold", "KHold2", "K3", "SlotColl", "ArgsHold", "OpsUse", 5)
-        add("hold", "KHold3", "K3", "SlotColl", "ArgsHold", "OpsUse", 4)
-        add("env", "KDisks", "K2", "SlotDist", "ArgsEnv", "OpsEnv", 4)
-        add("sim", "KAll", "K3", "SlotColl", "ArgsAll", "OpsAll", 6, sim=2500)
-        add("sim8", "KConcs", "K3", "SlotColl", "ArgsUses", "OpsAll", 8, handles=3, sim=600)
+        add("values", "KAll", "K2", "SlotDist", "ArgsValues", "OpsPut", 3)
+        add("few", "KMems", "K2", "SlotDist", "ArgsFew", "OpsMap", 4)
+        add("few", "KDisks", "K2", "SlotDist", "ArgsFewQ", "OpsMap", 4)
+        add("uses", "KAll", "K2", "SlotColl", "ArgsUses", "OpsUse", 3)
+        add("uses4", "KHold2", "K2", "SlotColl", "ArgsUsesQ", "OpsUse", 4)
+        add("hold", "KHold2", "K3", "SlotColl", "ArgsHold", "OpsUse", 4)
+        add("hold", "KHold3", "K2", "SlotColl", "ArgsHold", "OpsUse", 4)
+        add("env", "KDisks", "K2", "SlotDist", "ArgsEnv", "OpsEnv", 3)
+        add("sim", "KAll", "K3", "SlotColl", "ArgsAll", "OpsAll", 6, sim=20000)
+        add("sim8", "KConcs", "K3", "SlotColl", "ArgsUses", "OpsAll", 8, handles=3, sim=5000)
+        add("envsim", "KDisks", "K2", "SlotDist", "ArgsEnv", "OpsEnv", 5, sim=15000)
     return C
 
 
